@@ -263,6 +263,8 @@ type cmp struct {
 	seen  map[viewKey]bool
 	ivals []ival
 	work  []func() error
+
+	lastErr error
 }
 
 type ival struct {
